@@ -130,9 +130,9 @@ CHECKS = {
   technique="independent reference codec in Coq (round-trip proved) + Coq obligations over regenerated constants + differential correspondence"),
  "C04": dict(
   text="Coq theorems, Closed under the global context, about the reference decoder (a total function on every byte list): whatever it accepts "
-       "satisfies the builders' structural rules and re-parses to itself; an accepted Variable Byte Integer / length-prefixed field IS the "
-       "encoding of its value (non-minimal integers are never accepted), for every byte list; no primitive decoder consumes more than it was "
-       "given. PARTIAL (C04_partial): 'no parser of the library panics, over-reads or accepts an inconsistent packet' is decided on the "
+       "satisfies the builders' structural rules and re-parses to itself; ACCEPTED INPUT IS CANONICAL for all 29 kinds and every byte list: "
+       "decode l = Some b implies encode b = l (no non-minimal length, no slack, no second encoding), likewise for property blocks, Variable "
+       "Byte Integers and length-prefixed fields; no primitive decoder consumes more than it was given. PARTIAL (C04_partial): 'no parser of the library panics, over-reads or accepts an inconsistent packet' is decided on the "
        "implementation: every parser under catch_unwind on exhaustive short bodies, structured mutations of valid encodings of all 29 kinds and "
        "random bytes - consumed <= given, size() = length of the re-serialisation, re-parse equal, builder rules on the accessor values "
        "(monitor) - and by the correspondence with the reference decoder.",
